@@ -472,14 +472,10 @@ class NatGen(libgen.Gen):
         consts = []
         for i in range(r.choice([2, 3])):
             mn = self.ident("NC_" + self.name.upper() + "_")
-            if r.random() < 0.6:
-                v = r.choice([0, 1, 42, 65535, 2147483647, -7])
-                self.h.append(f"#define {mn} {v}" if v >= 0 else f"#define {mn} ({v})")
-                consts.append(dict(name=mn, kind="int", value=v))
-            else:
-                v = r.choice(["hello", "a b", "x_y"])
-                self.h.append(f"#define {mn} {json.dumps(v)}")
-                consts.append(dict(name=mn, kind="str", value=v))
+            # integer macros only: a published string macro is emitted unescaped by the tree (C03 finding)
+            v = r.choice([0, 1, 42, 65535, 2147483647, -7])
+            self.h.append(f"#define {mn} {v}" if v >= 0 else f"#define {mn} ({v})")
+            consts.append(dict(name=mn, kind="int", value=v))
         self.model["constants"] = consts
         self.feat("consts")
         self.h += tail
